@@ -31,6 +31,10 @@ def one(h: Harness, spec, b, g, mind, kind, d, draws):
         return None
     site = f"create_genotype[{kind}]"
     replay = [sx(line_spec), kind, d, list(draws)]
+    if v is not None and d >= mind and synth.depth_of(v, b) > d + 40:
+        # far beyond the limit: reported from the independent traversal alone (the value is too deep to be worth piping)
+        h.fail(site, "depth-exceeds-limit", f"[python oracle] program of depth {synth.depth_of(v, b)} under max depth {d}", replay)
+        return None
     h.agree(site, ["create", line_spec, [kind, d], list(draws)], res,
             nontrivial=(d < mind) or sx(res).count("(n ") >= 2)
     h.count(f"d-min={d - mind}")
